@@ -15,15 +15,17 @@ Ids(s)   == [nil |-> FALSE, r |-> 0, ids |-> s]
 
 TBase  == [name |-> "ct",  fields |-> [x |-> A("string", FALSE), n |-> A("int", TRUE),
                                         r |-> R(TRUE, "tt"), m |-> R(FALSE, "tt")]]
-TOther == [name |-> "ct2", fields |-> [x |-> A("int", FALSE), z |-> A("string", FALSE), m |-> R(FALSE, "tt")]]
+\* (n: the same name and kind as in TBase, not nullable any more)
+TOther == [name |-> "ct2", fields |-> [x |-> A("int", FALSE), z |-> A("string", FALSE), m |-> R(FALSE, "tt"), n |-> A("int", FALSE)]]
 
 Srcs0 == <<
   [id |-> "1", name |-> "ct", shared |-> FALSE, fields |-> TBase.fields,
    vals |-> [x |-> V(1), n |-> NilV, r |-> Ids(<<"a">>), m |-> Ids(<<"b", "a">>)]],
   [id |-> "2", name |-> "narrow", shared |-> FALSE, fields |-> [x |-> A("string", FALSE)], vals |-> [x |-> V(2)]],
   [id |-> "1", name |-> "wide", shared |-> FALSE,
-   fields |-> [x |-> A("string", FALSE), y |-> A("bool", FALSE), q |-> R(FALSE, "tt")],
-   vals |-> [x |-> V(1), y |-> V(1), q |-> Ids(<<"b">>)]],
+   \* (w: a nullable attribute the collection does not know, holding nil)
+   fields |-> [x |-> A("string", FALSE), y |-> A("bool", FALSE), q |-> R(FALSE, "tt"), w |-> A("int", TRUE)],
+   vals |-> [x |-> V(1), y |-> V(1), q |-> Ids(<<"b">>), w |-> NilV]],
   [id |-> "3", name |-> "conflict", shared |-> FALSE,
    fields |-> [x |-> A("int", FALSE), n |-> A("int", FALSE), r |-> R(FALSE, "tt")],
    vals |-> [x |-> V(1), n |-> V(1), r |-> Ids(<<"a">>)]],
